@@ -28,6 +28,8 @@ package executor
 //@ func (k *KVExecutor) computeStateRoot(ctx) (root, err)
 //@   property C15
 //@   requires [wiring] k.db != nil
+// the root handed out is the caller's: no later execution rewrites it (it is not a view of a buffer the executor keeps)
+//@   fresh root
 //@   ensures [reads-to-the-end] err == nil ==> !recvOpen("Next")
 //@   loop 1 invariant [root-excludes-reserved] len(keys) == iter(len(keys)) + 1 ==> !Reserved(dskey(result.Key))
 //@   loop 1 invariant [root-includes-app] recvCount("Next") == 1 && result.Error == nil && !Reserved(dskey(result.Key)) ==> len(keys) == iter(len(keys)) + 1
@@ -40,6 +42,7 @@ package executor
 //@   observe cm := call Commit
 //@   observe put := call Put
 //@   observe csr := call computeStateRoot
+//@   fresh root
 //@   modifies durable k.db.kv, durable k.db.kvHas, durable k.db.size
 // re-executing a block is harmless, and so is executing it on whatever the store holds: a block is refused
 // only for a cause that lies in its transactions or in the storage - never because of what is already stored
